@@ -10,6 +10,10 @@ require (
 	github.com/unravelin/null/v5 v5.0.1
 )
 
-require github.com/go-json-experiment/json v0.0.0-20250213060926-925ba3f173fa // indirect
+require (
+	github.com/go-json-experiment/json v0.0.0-20250213060926-925ba3f173fa // indirect
+	github.com/josharian/intern v1.0.0 // indirect
+	github.com/mailru/easyjson v0.7.7 // indirect
+)
 
 replace github.com/philpearl/avro => /repo
